@@ -498,13 +498,13 @@ class World:
         hs = sorted({v["roothash"] for v in self.vers})
         return {h: i + 1 for i, h in enumerate(hs)}
 
-    def ev_layout(self):
+    def ev_layout(self, keepmaps=False):
         self.stamp()
         L = {s: {} for s in self.order}
         for (sname, sh), ent in self.lay.items():
             L[sname][str(sh)] = {"v": ent["v"], "cls": ent["cls"]}
         up = [s for s in self.order if s not in self.removed]
-        self.events.append({"ev": "Layout", "L": L, "up": up, "nv": len(self.vers),
+        self.events.append({"ev": "Layout", "L": L, "up": up, "nv": len(self.vers), "keepmaps": keepmaps,
                             "how": {"%s/%d" % k: e.get("how", "") for k, e in sorted(self.lay.items())}})
 
     def ev_maps(self):
@@ -523,10 +523,26 @@ class World:
         self.removed = set(removed)
         self.g.removed = set(removed)
 
-    def op_read(self, kind, policy="fifo"):
+    def op_read(self, kind, policy="fifo", midtamper=None):
         node = self.fresh_node(kind)
         del MAPLOG[:]
         self.g.policy = policy
+        if midtamper is not None:
+            # a server that changes what it serves between the reader's survey and its fetch of the blocks: once the servermap
+            # update of this read is done its observations are recorded, the shares are edited, the new layout is recorded,
+            # and only then are the remaining requests answered
+            fired = []
+
+            def pol(grid):
+                if not fired and len(MAPLOG) >= 1:
+                    fired.append(1)
+                    self.ev_maps()
+                    midtamper()
+                    self.ev_layout(keepmaps=True)
+                if not grid.pending:
+                    return ("timer",)
+                return ("call", 0, None)
+            self.g.policy = pol
         st, r = self.run(node.download_best_version())
         self.g.policy = "fifo"
         self.ev_maps()
@@ -536,7 +552,7 @@ class World:
             res = {"kind": "livelock"}
         else:
             res = {"kind": "error", "what": r}
-        self.events.append({"ev": "Read", "node": kind, "res": res})
+        self.events.append({"ev": "Read", "node": kind, "res": res, "mid": midtamper is not None})
         return res
 
     def op_check(self, kind, verify):
@@ -808,6 +824,19 @@ def scen_c10(g, fg, rng, idx, thorough):
     for kind in rng.sample(["ro", "ro", "rw", "w"], 2):
         pol = "fifo" if rng.random() < 0.6 else random.Random(rng.randrange(10 ** 6))
         w.op_read(kind, pol)
+    if idx % 4 == 1:
+        # time-of-tamper: after the survey of one more read, some intact shares get a damaged signed field (IV, root hash, ...)
+        trng = random.Random("midtamper-%d" % idx)
+
+        def mid():
+            slots = [(s_, sh_) for (s_, sh_), ent in sorted(w.lay.items())
+                     if ent["cls"] == "intact" and w.vers[ent["v"] - 1]["signer"] == "owner"]
+            trng.shuffle(slots)
+            for (s_, sh_) in slots[:trng.randint(1, max(1, len(slots)))]:
+                t = tampered(w, w.lay[(s_, sh_)]["v"], sh_, trng.sample(["iv", "iv", "roothash", "seq", "datalen"], 2), trng)
+                if t:
+                    w.put(s_, sh_, w.lay[(s_, sh_)]["v"], t[1], t[0], "mid:" + t[2])
+        w.op_read(trng.choice(["ro", "rw"]), midtamper=mid)
     w.set_up([])
     return w.trace("c10")
 
